@@ -2,7 +2,7 @@
    Model: Model/GF8.v (GF(2^8) mod 0x11D; klauspost/reedsolomon with WithPAR1Matrix: Encode, Reconstruct,
    Verify) and Model/Par1.v (Create, the decoder, Verify, Repair) over Model/FS.v. *)
 From Gopar Require Import Model.Base Model.Matrix Model.RS16 Model.GF8 Model.CRC Model.GoPath Model.FS Model.Par1
-     Proofs.LinAlg Proofs.GoPathFacts Proofs.Par2Facts Proofs.GF8Facts Proofs.Par1Facts Proofs.Par1Clean.
+     Proofs.LinAlg Proofs.GoPathFacts Proofs.Par2Facts Proofs.GF8Facts Proofs.Par1Facts Proofs.Par1Clean Proofs.Par1RoundTrip.
 Open Scope N_scope.
 
 (* Reconstruct, for EVERY file count, volume count, content and EVERY subset of surviving data files and
@@ -79,3 +79,44 @@ Theorem C04_success_means_restored : forall md5 ix dbl fs rp st' s st1,
   Forall2 (recorded_after md5 (io_fs st') ix (s_size s)) (s_saved s) (s_data s).
 Proof. exact par1_repair_ok_all_recorded_strong. Qed.
 Print Assumptions C04_success_means_restored.
+
+(* THE ROUND TRIP, for every input set Create accepts (files beside the index, names that are UTF-8 of
+   scalar values, no stale volume files at the probed paths beyond the ones written):
+   Create, then Verify - with and without the full parity check - succeeds, counts every file and every
+   (loadable: at most 99) volume usable and none unusable, and the parity check says ok *)
+Theorem C04_create_then_verify_clean : forall md5, (forall x, length (md5 x) = 16%nat) ->
+  forall parPath files nvol fs st' all,
+  par1_create md5 parPath files nvol (io_init fs []) = (Ok tt, st') ->
+  let nv := if (nvol <=? 0)%Z then 3%nat else Z.to_nat nvol in
+  Forall (fun f => input_name_ok (base f)) files ->
+  Forall (fun f => join2 (dir parPath) (base f) = f) files ->
+  (forall f d, In f files -> fs_lookup fs f = Some d -> N.of_nat (length d) < 2^64) ->
+  Forall (fun f => f <> parPath /\ forall k, (1 <= k <= nv)%nat -> f <> volume_path parPath (N.of_nat k)) files ->
+  (forall k, (nv < k <= Nat.min (256 - length files) 99)%nat ->
+     fs_lookup fs (volume_path parPath (N.of_nat k)) = None /\ is_dir fs (volume_path parPath (N.of_nat k)) = false) ->
+  exists c st2, par1_verify md5 parPath all (io_init (io_fs st') []) = (Ok (c, all), st2) /\
+    fc_unusable c = 0%nat /\ fc_punusable c = 0%nat /\ fc_usable c = length files /\ fc_pusable c = Nat.min nv 99.
+Proof. exact par1_create_then_verify_clean. Qed.
+Print Assumptions C04_create_then_verify_clean.
+
+(* ... and Create, then lose ANY set of the protected files no larger than the number of (loadable) volumes,
+   then Repair: it ALWAYS succeeds, every file is back BYTE FOR BYTE, and exactly the lost files are listed
+   (with all volumes kept the system is a genuine Vandermonde system on distinct points: never singular) *)
+Theorem C04_create_lose_repair_restores : forall md5, (forall x, length (md5 x) = 16%nat) ->
+  forall parPath files nvol fs st' lost dbl r rp st3,
+  par1_create md5 parPath files nvol (io_init fs []) = (Ok tt, st') ->
+  let nv := if (nvol <=? 0)%Z then 3%nat else Z.to_nat nvol in
+  Forall (fun f => input_name_ok (base f)) files ->
+  Forall (fun f => join2 (dir parPath) (base f) = f) files ->
+  (forall f d, In f files -> fs_lookup fs f = Some d -> N.of_nat (length d) < 2^64 /\ wf_bytes d) ->
+  Forall (fun f => f <> parPath /\ forall k, (1 <= k <= nv)%nat -> f <> volume_path parPath (N.of_nat k)) files ->
+  (forall k, (nv < k <= Nat.min (256 - length files) 99)%nat ->
+     fs_lookup fs (volume_path parPath (N.of_nat k)) = None /\ is_dir fs (volume_path parPath (N.of_nat k)) = false) ->
+  incl lost files -> (length lost <= Nat.min nv 99)%nat ->
+  (forall f, In f lost -> is_dir (io_fs st') f = false) ->
+  par1_repair md5 parPath dbl (io_init (fs_remove lost (io_fs st')) []) = ((r, rp), st3) ->
+  r = Ok tt /\
+  (forall f d, In f files -> fs_lookup fs f = Some d -> fs_lookup (io_fs st3) f = Some d) /\
+  rp = filter (fun f => existsb (str_eqb f) lost) files.
+Proof. exact par1_create_lose_repair_ok. Qed.
+Print Assumptions C04_create_lose_repair_restores.
